@@ -88,6 +88,8 @@ func checkC34(c *Ctx) (string, []string) {
 		})
 	}
 
+	c34ReporterKeys(c, fn["UpdateReportStatistics"])
+
 	// the set of signing validators is the guarantee's own: a set filled from a guarantee's signatures is created in the
 	// iteration that fills it (inside every loop around the loop over the signatures) — a set carried across
 	// guarantees credits validators for reports they did not sign
